@@ -377,6 +377,8 @@ def r07_13(ctx):
 
 
 def run(ctx):
+    ctx.rule("R07.16", "the escape loop advances by exactly what it accounted for (prefix, needle replacement, X + needle length); noscript text is raw exactly when scripting is enabled; the start tag's layout ('<' name, then ' ' [prefix] local '=\"' value '\"' per attribute)")
+    ctx.guard("R07.16", "serializer-transcription", lambda: r07_16(ctx))
     ctx.rule("R07.15", "= R14.12: the character reference states as transcribed - in particular a name still being matched waits for more input (Stuck) when the chunk ends, so `&amp` | `;` read from the serializer's output in two chunks is one reference")
     from . import charrefspec as _crs
     ctx.guard("R07.15", "charref-machine", lambda: _crs.charref_machine(ctx, "R07.15", "html"))
@@ -420,3 +422,95 @@ def run(ctx):
     ctx.guard("R07.6", "nf", lambda: nf_common.nf_rule(ctx, "R07.6", AREA, floor=12))
     ctx.guard("R07.6", "nf-m5e", lambda: nf_common.nf_rule(ctx, "R07.6", "markup5ever_interface", only=("serialize",)))
     ctx.guard("R07.6", "nf-rcdom", lambda: nf_common.nf_rule(ctx, "R07.6", "rcdom", only=("[Serialize]",)))
+
+
+def r07_16(ctx):
+    """byte conservation of the escape loop, exactly: every iteration writes text[start..X] where X is the position of the next
+    needle, then accounts for the needle - one replacement for one byte (& < > "), `&nbsp;` for the two bytes C2 A0, or the
+    byte text[X..X+1] itself for a C2 that is not NBSP - and goes on at X + (bytes accounted for).  Going on at X + 2 after a
+    one-byte needle loses the character behind it.  Read from a precise normal form (index expressions kept)."""
+    from lib import nf, flat, machine as mc
+    crate, mods, excl = nf_common.AREAS[AREA][:3]
+    flat.DISTINCT_PHI = True
+    try:
+        try:
+            known = set(nf_common.area_ref(AREA, ctx))
+        except (OSError, ValueError, KeyError):
+            known = None
+        r = nf.area_nf(ctx.ast, crate, mods, excl, (), known, ("write_escaped",))
+    finally:
+        flat.DISTINCT_PHI = False
+    ks = [k for k in r if k.endswith("::write_escaped") and isinstance(r[k], dict) and r[k].get("kind") == "paths"]
+    if len(ks) != 1:
+        raise AnchorMissing("write_escaped has no path normal form")
+    cells = mc.from_json({ks[0]: r[ks[0]]["cells"]})[ks[0]]
+    bad = None
+    n = 0
+    for pc in cells:
+        acts = [(a, [str(x) for x in args]) for a, args in pc["actions"]]
+        ends = [args for a, args in acts if a == "loop-end"]
+        if not ends or ends[0][0] != "end" or len(ends[0]) < 2:
+            continue
+        writes = [args[0] for a, args in acts if a == "self.writer.write_all"]
+        if not writes:
+            bad = bad or "an iteration goes round without writing anything"
+            continue
+        m = re.fullmatch(r"p1\.as_bytes\(\)\[(φ\d+\(0\))\.\.(.*)\]", writes[0])
+        if not m:
+            bad = bad or "the first write of an iteration is %s, not the text up to the next needle" % writes[0][:80]
+            continue
+        n += 1
+        X = m.group(2)
+        nxt = ends[0][-1]
+        rest = writes[1:]
+        if len(rest) != 1:
+            bad = bad or "an iteration that goes round writes %d things after the prefix" % len(rest)
+            continue
+        w = rest[0]
+        if w == '"&nbsp;".as_bytes()':
+            want = "((%s + 1) + 1)" % X
+        elif re.fullmatch(r'"&(amp|lt|gt|quot);"\.as_bytes\(\)', w):
+            want = "(%s + 1)" % X
+        elif w == "p1.as_bytes()[%s..(%s + 1)]" % (X, X):
+            want = "(%s + 1)" % X
+        else:
+            bad = bad or "after the prefix the iteration writes %s" % w[:80]
+            continue
+        if nxt != want:
+            bad = bad or "after writing %s for the needle at X the search goes on at %s, expected %s: a character is skipped or written twice" % (w[:24], nxt[-40:], want[-40:])
+    ctx.ob("R07.16", "escape-loop-advances-by-what-it-accounted-for", bad is None and n >= 10, bad or "%d iteration paths: prefix, then the needle's replacement, then X + its length" % n, "html5ever serialize write_escaped")
+    # noscript: raw exactly when scripting is enabled (the parser then reads it as raw text)
+    key, pcs = nfq.cells(ctx, AREA, "[Serializer]::write_text")
+    bad = None
+    n = 0
+    for pc in nfq.feasible(pcs):
+        g = pc["guards"]
+        ns = [v for k, v in g.items() if "noscript" in k]
+        se = [v for k, v in g.items() if "scripting_enabled" in k]
+        if not (ns and any(ns)) or not se:
+            continue
+        n += 1
+        raw = not any(a == "self.write_escaped" for a, _ in pc["actions"])
+        if raw != bool(se[0]):
+            bad = "under noscript with scripting %s the text is written %s" % ("enabled" if se[0] else "disabled", "raw" if raw else "escaped")
+    ctx.ob("R07.16", "noscript-raw-iff-scripting", bad is None and n >= 2, bad or "noscript text is raw exactly when scripting is enabled", "html5ever serialize write_text")
+    # start tag layout: '<' name, then per attribute ' ' [prefix] local '="' value '"', then '>'
+    key, pcs = nfq.cells(ctx, AREA, "[Serializer]::start_elem")
+    bad = None
+    n = 0
+    for pc in nfq.feasible(pcs):
+        t = nfq.texts(pc)
+        if not any(x.startswith("self.write_escaped(") for x in t):
+            continue
+        n += 1
+        i0 = next(i for i, x in enumerate(t) if x.startswith("loop-begin"))
+        inner = [x for x in t[i0 + 1:] if x.startswith("self.writer.write_all(") or x.startswith("self.write_escaped(")]
+        if not inner or inner[0] != "self.writer.write_all([32])":
+            bad = bad or "an attribute is not preceded by a space (first write of the attribute loop: %s)" % (inner[:1],)
+        pre = [x for x in t[:i0] if x.startswith("self.writer.write_all(")]
+        if pre[:1] != ["self.writer.write_all([60])"] or len(pre) < 2:
+            bad = bad or "the start tag does not begin with '<' and the tag name (%s)" % pre[:2]
+        k = next((j for j, x in enumerate(inner) if x.startswith("self.write_escaped(")), None)
+        if k is not None and (k < 2 or "name.local" not in inner[k - 2] and "local" not in inner[k - 2]):
+            bad = bad or "the attribute's local name is not written right before '=\"' (%s)" % inner[max(0, k - 2):k]
+    ctx.ob("R07.16", "start-tag-layout", bad is None and n >= 1, bad or "%d attribute-writing paths: '<' name, then ' ' [prefix] local '=\"' value '\"' per attribute" % n, "html5ever serialize start_elem")
